@@ -168,7 +168,7 @@ def fmtDec (i : Int) : Bytes :=
 
 /-- `uint32(d.Seconds())` for a `time.Duration` of `d` nanoseconds.  Go computes `float64(sec) + float64(nsec)/1e9`
 and truncates; this integer reading agrees for all `d ≥ 0` whose fractional part does not round up to a whole second
-in a 53-bit mantissa (every duration below 2^22 s, and every whole-second duration) — trusted, see DESIGN.md §13.3. -/
+in a 53-bit mantissa (every duration below 2^24 s, and every whole-second duration; first failing value found by a prover: 16777216.999999999 s reads 16777217) — trusted, see DESIGN.md §13.3. -/
 def durSecondsU32 (d : Int) : UInt32 := u32OfInt (Int.tdiv d 1000000000)
 
 /-- `ip.DefaultMask()`: the class A/B/C mask of an IPv4 address (nil when `ip` has no 4-byte form). -/
